@@ -123,8 +123,8 @@ func TestGossipSequences(t *testing.T) {
 				if msg != "" {
 					t.Fatalf("C09 violated: a sequence of well-formed peer messages crashed the node at step %d (%s): %s\nhistory: %v", len(hist)-1, desc, msg, hist)
 				}
-			case <-time.After(20 * time.Second):
-				t.Fatalf("C09 violated: step %d (%s) did not return within 20 s\nhistory: %v", len(hist)-1, desc, hist)
+			case <-time.After(120 * time.Second): // generous: a microsecond operation that has not returned after two minutes is not a scheduling artefact
+				t.Fatalf("C09 violated: step %d (%s) did not return within 120 s\nhistory: %v", len(hist)-1, desc, hist)
 			}
 		}
 		gossip := func(tx *blockchain.Transaction, what string) {
